@@ -46,6 +46,18 @@ class FakeAdapter:
         self.is_fast, self.name = fast, name
 
 
+class ComputedFlagAdapter:
+    """`is_fast` is declared as an abstract *property* in `mici.adapters.Adapter`: a computed flag (here the result of a
+    numpy comparison, a `numpy.bool_`) is as legitimate as the class attributes of the built-in adapters."""
+
+    def __init__(self, fast, name) -> None:
+        self._level, self.name = np.array([1.0 if fast else 0.0]), name
+
+    @property
+    def is_fast(self):
+        return self._level[0] > 0.5
+
+
 def gen_cases(tier: str, seed: int):
     block = 100
     for wi in range(1, len(WINDOWS)):
@@ -97,9 +109,15 @@ def case_stager(case, obs) -> None:
     w = case["w"] if case["window"] == -1 else WINDOWS[case["window"]]
     stager = make_stager(w)
     fast, slow = FakeAdapter(True, "fast"), FakeAdapter(False, "slow")
-    mixes = {"fast": {"t": [fast]}, "slow": {"t": [slow]}, "mixed": {"t": [fast, slow]}, "two-keys": {"a": [fast], "b": [slow, fast]}}
+    cfast, cslow = ComputedFlagAdapter(True, "fast"), ComputedFlagAdapter(False, "slow")
+    plain_mixes = {"fast": {"t": [fast]}, "slow": {"t": [slow]}, "mixed": {"t": [fast, slow]}, "two-keys": {"a": [fast], "b": [slow, fast]}}
+    computed_mixes = {"fast": {"t": [cfast]}, "slow": {"t": [cslow]}, "mixed": {"t": [cfast, cslow]}, "two-keys": {"a": [fast], "b": [cslow, cfast]}}
     tf = (lambda s: {"x": 0},)
     for n_warm in range(case["lo"], case["hi"]):
+        # every third warm-up length uses adapters whose flag is computed (numpy.bool_) instead of a class attribute
+        mixes = computed_mixes if n_warm % 3 == 1 else plain_mixes
+        if n_warm % 3 == 1:
+            obs.count("stager_calls_computed_flag")
         for n_main in (0, 1, 7):
             for mixname, adapters in mixes.items():
                 if w == "warmup" and mixname != "fast":
@@ -174,7 +192,7 @@ def case_sampler(case, obs) -> None:  # noqa: C901, PLR0912, PLR0915
         adapters = kw.get("adapters") or []
         alist = [a for v in adapters.values() for a in v] if isinstance(adapters, dict) else adapters
         for a in alist:
-            a.__class__ = _rec_adapter_class(type(a), calls)
+            a.__class__ = _rec_adapter_class(type(a), calls, computed_flag=cfg["seed"] % 3 == 0)
 
     res = samp.run(cfg, post_build=install)
     try:
@@ -294,7 +312,7 @@ def case_sampler(case, obs) -> None:  # noqa: C901, PLR0912, PLR0915
         samp.cleanup(res)
 
 
-def _rec_adapter_class(base, calls):
+def _rec_adapter_class(base, calls, computed_flag=False):
     from mv import samp
 
     class RecA(base):
@@ -313,6 +331,9 @@ def _rec_adapter_class(base, calls):
                            "metric_diag": samp._metric_diag(transition.system)}))  # noqa: SLF001
             return r
 
+    if computed_flag:
+        flag = np.array([1.0 if base.is_fast else 0.0])
+        RecA.is_fast = property(lambda self: flag[0] > 0.5)  # a numpy.bool_, as a flag computed from arrays would be
     RecA.__name__ = base.__name__
     return RecA
 
